@@ -122,6 +122,32 @@ CHECKS["C11"] = dict(
     design_ref="DESIGN.md C11", note="as C01; published positions = the effective table (consistency: C17).",
     technique=_T)
 
+CHECKS["C17"] = dict(
+    category="proof",
+    text="The bundled data are values: well_formed (structure string describes bban_length, iban_length = +4 <= 34, "
+         "positions inside the BBAN and disjoint, national algorithms read defined fields, lookup components defined; "
+         "bank entries name a table country, BIC empty or valid, bank code empty or fitting the lookup field in length "
+         "and classes) is EVALUATED on all 126 + 29,451 entries of the working tree (exhaustive); per country the live "
+         "compiled regex is proved (z3) equivalent to the sidecar's reading of the structure on lengths L-1, L, L+1; the "
+         "found-again consequence is executed for every bank entry.",
+    design_ref="DESIGN.md C17, 2.4",
+    note="Exhaustive over the configuration the tree bundles, re-evaluated on every run; future registry updates and "
+         "the network-bound scripts/ are out of reach.",
+    technique="data-structure invariant evaluated exhaustively on the bundled data + per-country translation validation "
+              "of the regex (z3)")
+CHECKS["C18"] = dict(
+    category="exploration",
+    text="BOUNDED stand-in: the real merge_dicts is run on every pair of nested dict shapes over a small key universe "
+         "(depth <= 2/3) against the recursive spec Merge incl. the frame condition, and symbolically (pyvc) with "
+         "symbolic leaves on all depth-2 shape pairs; parse_v2 on enumerated documents; registry.get is compared with an "
+         "independent name-ordered fold of the bundled files (exhaustive for this tree); overlay + v2 files are "
+         "exercised in a scratch copy of the package.",
+    design_ref="DESIGN.md C18 (fallback)",
+    note="Not a proof: the unbounded argument (loop invariants over abstract maps) is not built; bounds stated in the "
+         "evidence. json / file system assumed.",
+    technique="bounded stand-in for the contract of merge_dicts/parse_v2/get: small-scope enumeration against the "
+              "sidecar spec + symbolic-leaf execution of the real body (pyvc)")
+
 NOT_YET = {}
 
 ALL = [f"C{i:02d}" for i in range(1, 19)]
